@@ -60,6 +60,11 @@ CHECKS = {
          "Held on the executions observed: random rule sets over a directory/pattern alphabet (nested directory rules, overlapping allow/deny, global_deny, global_patterns) x 21 paths, runs from the root and from a sub-directory; thorough tier enumerates all directory-key pairs x 3x3 rule bodies exhaustively; evidence counts verdicts and carriers.",
          "Trusted: the reference evaluator (deny over allow, most specific containing directory by path components, directory over global, re.search case-insensitive); files compared as a set.",
          "DESIGN.md section 4 C18"),
+
+ "C14": ("runtime monitoring: every file of a generated tree carries planted violations (file-placement deny-all, a magic number in each source file) so the reported path set is the observable linted set; compared with a reference walker + reference matcher for the documented ignore-pattern forms",
+         "Held on the executions observed: trees with hidden directories, every built-in excluded name at any depth and as a file name, look-alikes, compiled artefacts, empty directories; pattern sets in .thailintignore / yaml ignore / both; targets '.', sub-directories, explicit (also excluded/ignored) files and mixtures; recursive and --no-recursive; evidence counts file verdicts per target kind and pattern source.",
+         "Trusted: the reference walker/matcher (forms dir/, *.ext, exact path, dir/**, **/*_gen.py without root-level candidates); no symlinks; no nested .git directories (they start a nested project root).",
+         "DESIGN.md section 4 C14"),
 }
 PENDING = {}
 props = [json.loads(l) for l in open(os.path.join(HERE, "properties.jsonl"))]
